@@ -65,9 +65,9 @@ theorem noNewPolicy_moves {cfg : Cfg} {K : Kind → Bool} {a b : Abs} (m : Moves
     obtain ⟨hn, hf⟩ := ih hb
     have hsb : aSecure cfg b = false := by simpa [aSecure, hf] using hs
     cases m
-    case store h ps => rw [hsb] at h; cases h
+    case store h ps _ => rw [hsb] at h; cases h
     case expire host => exact ⟨fun k p hg => hn k p (dictGet_dictDel hg), hf⟩
-    case conn f _ _ => simp at hk; omega
+    case conn f hh hr hp hj hpol => simp at hk; omega
     all_goals exact ⟨hn, hf⟩
 
 /-- with the stub driver no socket is ever opened by a handler -/
@@ -77,7 +77,50 @@ theorem sock_const_stub {cfg : Cfg} {K : Kind → Bool} (hr : cfg.realDriver = f
   | refl => rfl
   | step _ m ih =>
     cases m
-    case conn f h _ => rw [hr] at h; cases h
+    case conn f hh hrr hp hj hpol => rw [hr] at hrr; cases hrr
     all_goals exact ih
+
+/-- a handler that may not store a policy never adds or changes one -/
+theorem noStore_moves {cfg : Cfg} {K : Kind → Bool} (hK : K .storePerm = false) {a b : Abs} (m : Moves cfg K a b) :
+    NoNewPolicy a b := by
+  induction m with
+  | refl => exact fun _ _ h => h
+  | step m0 m ih =>
+    cases m
+    case store h ps hp => rw [hK] at hp; cases hp
+    case expire host => exact fun k p hg => ih k p (dictGet_dictDel hg)
+    all_goals exact ih
+
+/-- a handler that may not open a socket does not change the server the driver is connected to -/
+theorem forced_const_moves {cfg : Cfg} {K : Kind → Bool} (hK : K .connPerm = false) {a b : Abs} (m : Moves cfg K a b) :
+    b.forced = a.forced ∧ b.sock = a.sock := by
+  induction m with
+  | refl => exact ⟨rfl, rfl⟩
+  | step _ m ih =>
+    cases m
+    case conn f hh hr hp hj hpol => rw [hK] at hp; cases hp
+    all_goals exact ih
+
+/-- no handler both stores policies and opens sockets -/
+theorem handler_perms (h : Handler) : handlerKinds h .storePerm = false ∨ handlerKinds h .connPerm = false := by
+  cases h <;> simp [handlerKinds]
+
+/-- `sasl_response_sent` is raised only inside a SASL state, by a handler that may send credentials -/
+theorem sentOrigin_move {cfg : Cfg} {K : Kind → Bool} {a b : Abs} (m : Move cfg K a b) (hb : b.sent = true) :
+    a.sent = true ∨ (isSaslState a.fsm = true ∧ K .payload = true) := by
+  cases m
+  case respond h hp => exact .inr ⟨h, hp⟩
+  case unsent => simp at hb
+  case reset _ => simp at hb
+  all_goals exact .inl hb
+
+theorem sentOrigin_moves {cfg : Cfg} {K : Kind → Bool} (hK : K .startSasl = false) {a b : Abs} (m : Moves cfg K a b)
+    (hb : b.sent = true) : a.sent = true ∨ (isSaslState a.fsm = true ∧ K .payload = true) := by
+  induction m with
+  | refl => exact .inl hb
+  | step m0 m ih =>
+    rcases sentOrigin_move m hb with h | ⟨h1, h2⟩
+    · exact ih h
+    · exact .inr ⟨(noSaslEntry_moves hK m0 h1).1, h2⟩
 
 end C09
